@@ -256,6 +256,8 @@ theorem Stmt.first (s : Stmt ε) (h : s.WF X) : ∃ t r, s.toks X = t :: r ∧ s
   | whileS kw c body endT => exact ⟨kw, _, rfl, by rw [h.1]; decide +kernel⟩
   | loopS kw body endT => exact ⟨kw, _, rfl, by rw [h.1]; decide +kernel⟩
   | forS kw var eq lo to hi step body endT => exact ⟨kw, _, rfl, by rw [h.1]; decide +kernel⟩
+  | foreachS kw e body endT => exact ⟨kw, _, rfl, by rw [h.1]; decide +kernel⟩
+  | repeatS kw body untilT c => exact ⟨kw, _, rfl, by rw [h.1]; decide +kernel⟩
 
 theorem Stmt.tree_ok (s : Stmt ε) (h : s.WF X) : okTree (s.tree X) = true := by
   cases s with
@@ -530,6 +532,86 @@ theorem rt_for (kw var eq : Tok) (lo : ε) (to : Tok) (hi : ε) (step : Option (
             simp [Stmt.tree, Tree.nth, Tree.seq, Tree.kids, optList_ok hoks, loopItems, loopEnd, loopVal, Tree.list,
               Tree.isSome, Tree.isNone, Tree.rng, Tree.ident])
   simpa [Stmt.toks, stepToks] using hfin
+
+theorem rt_foreach (kw : Tok) (e : ε) (body : List (Stmt ε)) (endT : Tok) (h : (Stmt.foreachS kw e body endT).WF X)
+    (hrt : AllRT X body) : StmtRT X (.foreachS kw e body endT) := by
+  intro k hk
+  obtain ⟨hkw, he, hfe, hb, hus, hend⟩ := h
+  obtain ⟨hw, hok⟩ := exprOK_split X he
+  have hcm : kw.kind ≠ Kind.Comment := by rw [hkw]; decide
+  have hsb : SStop (Stmts.toks X body ++ endT :: k) := sstop_stmts X body hb _ (sstop_end k (by rw [hend]; decide))
+  have hloop := until_loop X [Kind.EndFor, Kind.End] nUntilEndFor rfl (by decide) body hb hrt endT (by rw [hend]; simp) k
+  -- the operand: `parse_oql_expr` fails on the first token, `parse_expr` takes the expression
+  have hex := hX.parses e hw _ hsb.stop8
+  obtain ⟨t, r, hts, hft⟩ := firstKindOK_cons hfe
+  simp only [Bool.and_eq_true, bne_iff_ne, ne_eq] at hft
+  have hoql : Fails (.ref nOqlExpr) (X.toks e ++ (Stmts.toks X body ++ endT :: k)) := by
+    rw [hts]
+    exact Fails.ref (n := nOqlExpr) (Fails.alt (Fails.map (fails_kw_seqL t _ _ _ hft.1 hft.2))
+      (Fails.map (fails_kw_seqL t _ _ _ hft.1 hft.2)))
+  have hopd : Parses (.alt (.ref nOqlExpr) (.ref nExpr)) (X.toks e ++ (Stmts.toks X body ++ endT :: k))
+      (Stmts.toks X body ++ endT :: k) (X.tree e) := Parses.alt2 hoql hex
+  have htl : Parses (.ref nForEachInTail) (Stmts.toks X body ++ endT :: k) (Stmts.toks X body ++ endT :: k) (tailOf []) :=
+    Parses.ref (n := nForEachInTail) (Parses.alt2 (Fails.seq1 (hsb.fails_tok _ (by decide +kernel))) Parses.eps)
+  have hin := Parses.map (fn := fun v : Tree => foldBin (treeDepth v) (v.nth 0) (v.nth 1)) (Parses.seq hopd htl)
+  rw [fold_value _ [] (by intro p hp; cases hp)] at hin
+  -- no `downto`, no `using`
+  have hdt : Parses (.opt (.tok Kind.DownTo)) (Stmts.toks X body ++ endT :: k) (Stmts.toks X body ++ endT :: k) Tree.none :=
+    Parses.s_opt_none (hsb.fails_tok _ (by decide +kernel))
+  have hnu : Fails (.tok Kind.Using) (Stmts.toks X body ++ endT :: k) := by
+    obtain ⟨t', r', hts', hft'⟩ := firstKindOK_cons hus
+    have : Stmts.toks X body ++ endT :: k = t' :: (r' ++ k) := by
+      have := congrArg (· ++ k) hts'
+      simpa using this
+    rw [this] at hsb ⊢
+    exact Fails.tok (by simpa using hft') (fun e => hsb t' _ rfl (e ▸ comment_sbad))
+  have husing : Parses (.dep (.opt (.tok Kind.Using)) Tree.isSome (.ref nIdentifier)) (Stmts.toks X body ++ endT :: k)
+      (Stmts.toks X body ++ endT :: k) (Tree.seq [Tree.none, Tree.none]) :=
+    Parses.s_dep_no (Parses.s_opt_none hnu) rfl
+  have hg : Parses gForEach (kw :: (X.toks e ++ (Stmts.toks X body ++ endT :: k))) k (Stmt.tree X (.foreachS kw e body endT)) :=
+    (Parses.map (Parses.seqL (ParsesList.cons (Parses.tok hkw) (ParsesList.cons hin (ParsesList.cons hdt
+      (ParsesList.cons husing (ParsesList.cons hloop ParsesList.nil))))))).s_to rfl
+  have hfin := stmt_via 2 gForEach [gWhile, gLoop, gSwitch, gRepeat, gComment, gUses, gConstDecl, gTypeDecl, gLocalVar, gControl,
+    .ref nOqlExpr, gAssignment, .ref nExpr] rfl kw _ k _ hcm (by rw [hkw]; decide +kernel) hg
+  simpa [Stmt.toks] using hfin
+
+/-- `parse_until_w_context(Until, stmt)` and the condition after `until` -/
+theorem repeat_loop (ss : List (Stmt ε)) (hwf : Stmts.WF X ss) (hrt : AllRT X ss) (untilT : Tok)
+    (hu : untilT.kind = Kind.Until) (c : ε) (hc : X.wfb c = true) (k : List Tok) (hk : Stop 8 k) :
+    Parses (.ref nRepeatUntil) (Stmts.toks X ss ++ untilT :: (X.toks c ++ k)) k (loopVal (Stmts.trees X ss) (X.tree c)) := by
+  induction ss with
+  | nil =>
+    simp only [Stmts.toks, Stmts.trees, List.nil_append]
+    exact Parses.ref (n := nRepeatUntil) (Parses.map (fn := repeatNorm)
+      (Parses.s_ifEof_cons (Parses.s_ifTok_hit (by rw [hu]; decide) (by rw [hu]; decide) (hX.parses c hc k hk))))
+  | cons s rest ih =>
+    obtain ⟨t, r, ht, hs⟩ := Stmt.first X s hwf.1
+    have hk' : SStop (Stmts.toks X rest ++ untilT :: (X.toks c ++ k)) :=
+      sstop_stmts X rest hwf.2 _ (sstop_end _ (by rw [hu]; decide))
+    have hs' := hrt s List.mem_cons_self _ hk'
+    have ih' := ih hwf.2 (fun x hx => hrt x (List.mem_cons_of_mem _ hx))
+    simp only [Stmts.toks, Stmts.trees, List.append_assoc]
+    rw [ht] at hs' ⊢
+    simp only [List.cons_append] at hs' ⊢
+    have := Parses.map (fn := repeatNorm) (Parses.s_ifEof_cons (a := .eps (loopVal [] Tree.none))
+      (Parses.s_ifTok_miss (a := .ref nExpr) (startOK_comment hs) (not_contains_of_sub (ks := [Kind.Until]) (by decide) hs)
+        (Parses.map (fn := loopCons) (Parses.seq (Parses.s_recover (m := .skipTok) hs') ih'))))
+    rw [loopCons_ok (Stmt.tree_ok X s hwf.1)] at this
+    exact Parses.ref (n := nRepeatUntil) this
+
+theorem rt_repeat (kw : Tok) (body : List (Stmt ε)) (untilT : Tok) (c : ε) (h : (Stmt.repeatS kw body untilT c).WF X)
+    (hrt : AllRT X body) : StmtRT X (.repeatS kw body untilT c) := by
+  intro k hk
+  obtain ⟨hkw, hb, hu, hc⟩ := h
+  obtain ⟨hw, hok⟩ := exprOK_split X hc
+  have hcm : kw.kind ≠ Kind.Comment := by rw [hkw]; decide
+  have hloop := repeat_loop X hX body hb hrt untilT hu c hw k hk.stop8
+  have hg : Parses gRepeat (kw :: (Stmts.toks X body ++ untilT :: (X.toks c ++ k))) k (Stmt.tree X (.repeatS kw body untilT c)) :=
+    (Parses.map (Parses.seqL (ParsesList.cons (Parses.tok hkw) (ParsesList.cons hloop ParsesList.nil)))).s_to (by
+      simp [Stmt.tree, Tree.nth, Tree.seq, Tree.kids, loopEnd, loopItems, loopVal, Tree.list, okTree_isSome hok, Tree.rng])
+  have hfin := stmt_via 6 gRepeat [gComment, gUses, gConstDecl, gTypeDecl, gLocalVar, gControl,
+    .ref nOqlExpr, gAssignment, .ref nExpr] rfl kw _ k _ hcm (by rw [hkw]; decide +kernel) hg
+  simpa [Stmt.toks] using hfin
 
 /-! ## if … [elseif …]* [else …] endif -/
 
@@ -817,6 +899,8 @@ theorem stmt_rt : (s : Stmt ε) → s.WF X → StmtRT X s
   | .loopS kw body endT, h => rt_loop X kw body endT h (stmts_rt body h.2.1)
   | .forS kw var eq lo to hi step body endT, h =>
     rt_for X hX kw var eq lo to hi step body endT h (stmts_rt body h.2.2.2.2.2.2.2.1)
+  | .foreachS kw e body endT, h => rt_foreach X hX kw e body endT h (stmts_rt body h.2.2.2.1)
+  | .repeatS kw body untilT c, h => rt_repeat X hX kw body untilT c h (stmts_rt body h.2.1)
 theorem stmts_rt : (ss : List (Stmt ε)) → Stmts.WF X ss → AllRT X ss
   | [], _ => fun _ hs => by cases hs
   | s :: rest, h => fun x hx =>
@@ -1315,6 +1399,8 @@ theorem Stmt.wfb_iff : (s : Stmt ε) → (s.wfb X = true ↔ s.WF X)
   | .loopS kw body endT => by simp [Stmt.wfb, Stmt.WF, Stmts.wfb_iff body, and_assoc]
   | .forS kw var eq lo to hi step body endT => by
     simp [Stmt.wfb, Stmt.WF, Stmts.wfb_iff body, stepWfb_iff, and_assoc]
+  | .foreachS kw e body endT => by simp [Stmt.wfb, Stmt.WF, Stmts.wfb_iff body, and_assoc]
+  | .repeatS kw body untilT c => by simp [Stmt.wfb, Stmt.WF, Stmts.wfb_iff body, and_assoc]
 theorem Stmts.wfb_iff : (ss : List (Stmt ε)) → (Stmts.wfb X ss = true ↔ Stmts.WF X ss)
   | [] => by simp [Stmts.wfb, Stmts.WF]
   | s :: rest => by simp [Stmts.wfb, Stmts.WF, Stmt.wfb_iff s, Stmts.wfb_iff rest]
